@@ -69,6 +69,14 @@ CHECKS = [
         note="k<=3/4 modalities for history; m<=4/5 boundaries for summary; qualitative category text concrete.",
         technique=TECH,
     ),
+
+    dict(
+        property_id="C07",
+        text="Bounded symbolic model checking of fit/transform coherence: complete real fits of BinaryCarver, ContinuousCarver, Discretizer and QuantitativeDiscretizer on a symbolic quantitative column with a qualitative companion and an untouched column: on every path fit_transform == fit+transform, transforming a reversed/re-indexed frame with a solver-chosen row removed gives the corresponding rows, repeated transforms are identical and leave values_orders/labels_per_values unchanged, index/columns kept, non-feature column and the caller's X, y untouched; the transform kernel is additionally checked with symbolic boundaries and symbolic rows (row purity for any pair of reals).",
+        design_ref="DESIGN.md 6/C07",
+        note="n=3 (quick)/3-4 (thorough) symbolic rows (+1 NaN row), m<=3/4 boundaries in the kernel; histories of up to three transforms; X_dev/y_dev untouched is asserted in the C11/C12 API harnesses only.",
+        technique=TECH,
+    ),
 ]
 
 ALL = ["C%02d" % i for i in range(1, 20)]
